@@ -1,4 +1,5 @@
 import Replicon.Proofs.Client
+import Replicon.Proofs.Fresh
 /-
 C01 — Every client converges to the server state under any legal network schedule.
 
@@ -61,6 +62,49 @@ theorem C01_stable_client (c : Client) (hc : c.connected = true) (hl : c.lastNot
   unfold frame applyBuffered
   cases c
   simp_all
+
+/-- Convergence for a client that joins a server in quiescence, in one perfect round — a theorem
+across both models (`Proofs/Fresh.lean`): the update message of the run, applied by a client at
+the start of its session, gives the client every replicated entity with exactly the server's
+replicated components and values (`Fresh.Good`), and nothing else.  (Blacklist policy, nothing
+buffered, distinct entity ids, no entity-valued components.) -/
+theorem C01_joiner_converges (s : Server) (thisRun : Nat) (hw : s.white = false)
+    (hd : s.despawnBuf = []) (hr : s.removalBuf = []) (hne : Fresh.viewMsgs s ≠ [])
+    (hkeys : (s.world.map (·.1)).Nodup) (hplain : ∀ m ∈ Fresh.viewMsgs s, ∀ kv ∈ m.comps, kv.1 ≠ 4) :
+    ∃ u, (runClient s thisRun Fresh.freshCli).2.update = some u ∧
+      Fresh.Good s.tick { connected := true } (applyUpdate { connected := true } u) (Fresh.viewMsgs s) := by
+  obtain ⟨u, hu, _, g⟩ := Fresh.fresh_round_trip s thisRun { connected := true } Fresh.session_start_new hw hd hr hne hkeys hplain
+  exact ⟨u, hu, g⟩
+
+/-- … per entity and component: the client's value is the server's, and it has no other component -/
+theorem C01_joiner_values (s : Server) (thisRun : Nat) (hw : s.white = false)
+    (hd : s.despawnBuf = []) (hr : s.removalBuf = []) (hne : Fresh.viewMsgs s ≠ [])
+    (hkeys : (s.world.map (·.1)).Nodup) (hplain : ∀ m ∈ Fresh.viewMsgs s, ∀ kv ∈ m.comps, kv.1 ≠ 4)
+    (hrates : (s.rates.map (·.1)).Nodup)
+    (e : Nat) (ent : SEnt) (mk : Nat) (he : (e, ent) ∈ s.world) (hm : ent.marker = some mk) (k : Nat) :
+    ∃ u ce cent, (runClient s thisRun Fresh.freshCli).2.update = some u ∧
+      aget (applyUpdate { connected := true } u).s2c e = some ce ∧
+      aget (applyUpdate { connected := true } u).world ce = some cent ∧
+      aget cent.comps k = (((present s ent).map fun y => (y.1, y.2.2.val)).lookup k) := by
+  obtain ⟨u, hu, ce, h1, h2, _⟩ := Fresh.fresh_round_trip_entity s thisRun { connected := true } Fresh.session_start_new
+    hw hd hr hne hkeys hplain e ent mk he hm
+  refine ⟨u, ce, _, hu, h1, h2, ?_⟩
+  have hnd : (((present s ent).map fun y => (y.1, y.2.2.val)).map (·.1)).Nodup := by
+    rw [List.map_map]
+    have : List.Sublist ((present s ent).map ((fun x : Nat × Nat => x.1) ∘ fun y => (y.1, y.2.2.val))) (s.rates.map (·.1)) := by
+      unfold present
+      induction s.rates with
+      | nil => exact List.Sublist.refl _
+      | cons r rs ih =>
+        rw [List.filterMap_cons]
+        cases hc : aget ent.comps r.1 with
+        | none => simp only [hc, Option.map_none]; exact ih.trans (by simp)
+        | some c => simp only [hc, Option.map_some, List.map_cons, Function.comp]; exact List.Sublist.cons_cons _ ih
+    exact this.nodup hrates
+  have := Fresh.assocOf_get k ((present s ent).map fun y => (y.1, y.2.2.val)) [] hnd
+  simp only at this ⊢
+  rw [this]
+  cases (List.map (fun y => (y.1, y.2.2.val)) (present s ent)).lookup k <;> rfl
 
 /-- Non-vacuity: one round trip on the models — spawn, run, apply: the client holds the entity
 with the server's values, and the next run is silent. -/
